@@ -347,7 +347,7 @@ Restored(id) ==
 Reopen(id, crash) ==
   /\ ~rd.on /\ nre < MaxReopen /\ nre' = nre + 1
   /\ id \in returned /\ HasDocCp(id) /\ Opened(id).ok
-  /\ \A i \in 1..Len(files.doc) : files.doc[i].id <= id   \* the job restores from the newest completed checkpoint
+  /\ id \notin dropped   \* the job restarts from a checkpoint it still retains (newer local ones may exist: they are given up)
   /\ LET o == Opened(id)
      IN /\ mem' = o.st.mem /\ wal' = o.st.wal /\ flushQ' = o.st.flushQ /\ seq' = o.st.seq
         /\ lv' = o.lv /\ latest' = o.cp.latest
